@@ -37,7 +37,7 @@ PROPS = {
         assumptions=[
             "appends happen only while the path exists; a re-created file is empty when the tailer first sees it; truncation is to length 0 (statement premise: each step is observed before the next)",
             "a clock jump between observations has no effect (the stale-stream timer is stopped by the empty read that follows every data read)",
-            "filesystem is the sandbox's (ext4 scratch dir and /dev/shm tmpfs, chosen per run); read errors such as EIO/ESTALE are not injected",
+            "filesystem is the sandbox's (ext4 scratch dir and /dev/shm tmpfs, chosen per run); in one run in four the reads of the file streams are cut short (one read in three returns only the first 1-4096 bytes, drawn from the io stream — legal for read(2) and io.Reader); read errors such as EIO/ESTALE are not injected",
         ],
         expect_probes=["overlapping_patterns", "unread_backlog_at_stop", "generation_ended_with_fragment", "fragment_then_truncate", "fragment_then_rename-rotate", "fragment_then_copy-truncate", "fragment_then_delete", "fragment_then_stop"],
         real=["tailer.Tailer (AddPattern, pollers, TailPath, forwarders, shutdown)", "logstream.fileStream", "logstream.LineReader", "kernel filesystem (real files)", "Go time (fake clock of the bubble)"],
@@ -193,7 +193,7 @@ PROPS = {
               "streams, forwarders, fan-out and VMs under the seeded scheduler (1 run in 3 with statement-level preemption). Oracle: Run returns within "
               "the step budget and no task remains; counts equal the harness's own split of the file contents; the extra programs' final metrics equal "
               "a sequential run of the same programs file by file. Non-trivial: >= 2 files and >= 4 lines; distinct = distinct (files, programs, schedule)."),
-        assumptions=["the extra programs are insensitive to how different files' lines interleave, so 'an interleaving that keeps each file's order' is checked through per-file order witnesses plus a sequential reference"],
+        assumptions=["the extra programs are insensitive to how different files' lines interleave, so 'an interleaving that keeps each file's order' is checked through per-file order witnesses plus a sequential reference", "in one run in four the file streams' reads are cut short (one read in three returns only the first 1-4096 bytes)"],
         expect_probes=[],
         real=["mtail.Server (New with OneShot, Run)", "tailer.Tailer", "logstream.fileStream (one-shot)", "runtime.Runtime", "vm.VM", "metrics.Store", "compiler", "kernel filesystem"],
         stub=[],
@@ -210,7 +210,7 @@ PROPS = {
               "must deliver and count as a line of its own. After every action and after shutdown: lines_total, log_lines_total[f], prog_runtime_errors_total[p], prog_loads/unloads/load_errors_total[p] "
               "and log_count (read as deltas) must equal the harness's own event counts and the witness program's counters. Non-trivial: lines flowed "
               "and a program or log-file event happened; distinct = distinct (history, schedule signature)."),
-        assumptions=["histories stay within C16's premises", "expvars are process-global: one run at a time per process, read as deltas",
+        assumptions=["histories stay within C16's premises", "in one run in four the file streams' reads are cut short (one read in three returns only the first 1-4096 bytes)", "expvars are process-global: one run at a time per process, read as deltas",
                      "reloads are requested through LoadAllPrograms via a generated accessor (verif build tag) for the server's runtime"],
         expect_probes=["socket_burst", "fragment_flushed_as_line", "runtime_error_strtol", "runtime_error_div0", "prog_valid", "prog_broken", "prog_refused", "prog_removed", "rotate", "truncate", "delete_log"],
         real=["mtail.Server (New, Run)", "tailer + file streams", "runtime + VMs", "exporter.New (no push)", "expvar counters"],
